@@ -112,10 +112,10 @@ class C06(PropertyCheck):
         "is non-trivial; distinct = distinct case dict"
     )
     exhaustive_note = {
-        "quick": "rectangular_neighbors_from for every shape 3..9 x 3..9; barycentric weights for all 6 vertex "
-                 "orders of every generated triangle",
-        "thorough": "rectangular_neighbors_from for every shape 3..16 x 3..16; barycentric weights for all 6 "
-                    "vertex orders of every generated triangle",
+        "quick": "rectangular_neighbors_from / Mesh2DRectangular.neighbors for every mesh shape 3..9 x 3..9 "
+                 "(everything else is structured random generation)",
+        "thorough": "rectangular_neighbors_from / Mesh2DRectangular.neighbors for every mesh shape 3..16 x 3..16 "
+                    "(everything else is structured random generation)",
     }
     trusted_extra = [
         "Qhull via scipy.spatial.Delaunay (simplices, find_simplex, vertex_neighbor_vertices): modelled, not "
@@ -863,15 +863,21 @@ class C06(PropertyCheck):
         return {k: v for k, v in case.items() if not k.startswith("_")}
 
     def theorems_for(self, case):
+        common_t = ["C06.mappingMatrix_entry", "C06.mappingMatrix_rows_sum_one", "C06.slimForSubSlim_blocks",
+                    "C06.unique_encodes_mapping_matrix", "C06.unique_rows_distinct"]
         return {
-            "nbr": ["C06.rectNeighbors_eq_spec", "C06.rect_neighbors_four_connectivity"],
-            "tables": ["C06.mappingMatrix_entry", "C06.unique_encodes_mapping_matrix"],
-            "bary": ["C06.barycentric_weights"],
-            "nearest": ["C06.nearest_vertex_first_argmin"],
-            "rect": ["C06.rect_cell_contains_point", "C06.mappingMatrix_entry", "C06.mappingMatrix_rows_sum_one",
-                     "C06.unique_encodes_mapping_matrix"],
-            "delaunay": ["C06.barycentric_weights", "C06.mappingMatrix_entry", "C06.mappingMatrix_rows_sum_one",
-                         "C06.unique_encodes_mapping_matrix", "C06.delaunay_neighbors_symmetric"],
+            "nbr": ["C06.rectNeighbors_eq_spec", "C06.rect_neighbors_four_connectivity",
+                    "C06.rect_neighbors_symmetric"],
+            "tables": ["C06.mappingMatrix_shape", "C06.mappingMatrix_entry", "C06.unique_encodes_mapping_matrix",
+                       "C06.unique_rows_distinct"],
+            "bary": ["C06.barycentric_weights", "C06.barycentric_coordinates_exist"],
+            "nearest": ["C06.nearest_vertex_first_argmin", "C06.delaunay_row_outside"],
+            "rect": ["C06.rect_cell_contains_point", "C06.overlay_grid_contains", "C06.trunc_contract_rat",
+                     "C06.rect_mapper_rows_sum_one", "C06.rectNeighbors_eq_spec", *common_t],
+            "delaunay": ["C06.barycentric_weights", "C06.delaunay_row_located", "C06.delaunay_row_outside",
+                         "C06.delaunay_mapper_rows_sum_one", "C06.delaunay_neighbors_from_csr",
+                         "C06.delaunay_neighbors_share_edge", "C06.delaunay_neighbors_symmetric",
+                         "C06.delaunay_neighbors_adjacency", *common_t],
         }.get(case["kind"], ["C06.*"])
 
 
